@@ -104,6 +104,14 @@ class TD:
     def resized(self, extent):
         return TD("resized", self.prim, list(self.tm), extent, {"lb": 0, "extent": extent}, self)
 
+    def contains(self, kinds):
+        t = self
+        while t is not None:
+            if t.kind in kinds:
+                return True
+            t = t.base
+        return False
+
     def ref(self):
         return self.prim if self.kind == "prim" else "t%d" % self.slot
 
@@ -128,13 +136,20 @@ class TD:
         return (count - 1) * self.extent + (max(self.tm) + self.psize if self.tm else 0)
 
 
-def random_td(rng, prim, depth=None):
-    """random derived type with lb == 0 and small size"""
+def random_td(rng, prim, depth=None, passthrough_safe=False):
+    """random derived type with lb == 0 and small size.
+    passthrough_safe: stay inside what the installed MPI-IO layer handles.  PnetCDF hands the caller's buffer
+    datatype to MPI_File_write_at(_all) unchanged when no conversion, no byte swap and no packing happens (1-byte
+    types, tiny nc_ibuf_size); Open MPI 4.1.4's ROMIO then writes wrong bytes for (h)indexed types built over a base
+    that contains a resized or subarray constructor -- reproduced with plain MPI-IO and mapped by
+    tools/romio_selftest.py.  Such types are an MPI-IO defect, not PnetCDF behaviour, and are not generated."""
     base = TD.prim_(prim)
     depth = rng.choice([0, 1, 1, 1, 2]) if depth is None else depth
     t = base
     for _ in range(depth):
         k = rng.choice(["contig", "vector", "hvector", "indexed", "hindexed", "subarray", "resized"])
+        if passthrough_safe and k in ("indexed", "hindexed") and t.contains(("resized", "subarray")):
+            k = rng.choice(["contig", "vector", "hvector"])
         if k == "contig":
             t = t.contig(rng.randint(1, 3))
         elif k == "vector":
